@@ -3,6 +3,7 @@ import PokerVerif.Lemmas.TBOpen
 import PokerVerif.Lemmas.TBIndex
 import PokerVerif.Lemmas.TBSeatsRun
 import PokerVerif.Props.C01
+import PokerVerif.Lemmas.TBLeaveList
 /-!
 # C02 — A hand's seat numbers denote the same players from open to settlement
 
@@ -82,6 +83,27 @@ table_engine_internal.go) — as `TB.batchRemove` does.  D30 (fixed): it did so 
 status; a hand stopped by `PauseTable` / `CloseTable` kept stale entries after a departure (the next departure indexed
 the player list out of range, a settlement would have credited the neighbours). -/
 theorem C02_remap_fact : Facts.leaveRemapGuard = "always: range te.table.State.GamePlayerIndexes" := by decide
+
+/-- **C02 — a departure keeps the hand's list denoting the same players**: in every state reachable from `CreateTable`
+(recorded seat draws legal), after a successful `PlayersLeave` the hand's list — read against the new, compacted player
+list — names exactly the players it named before, minus those who left, in the same order; whatever the table status
+(also after a pause or a close in the middle of the hand: D30). -/
+theorem C02_leave_keeps_entries (cfg : Meta) (b : Blind) (evs : List Event) (hl : DrawsLegal (create cfg b) evs)
+    (ids : List Nat) (hok : (batchRemove (run (create cfg b) evs) ids).2 = .ok) :
+    let t := run (create cfg b) evs
+    (batchRemove t ids).1.gidx.filterMap (entryId (batchRemove t ids).1.players) =
+      (t.gidx.filterMap (entryId t.players)).filter (fun id => !(ids.contains id)) :=
+  batchRemove_entries _ ids (run_inv3 _ evs (create_inv3 cfg b) hl).2.2 hok
+
+-- non-vacuity: a three-player hand, the table is paused, the player listed first (not in the hand's first entry) leaves
+example :
+    let t := run (create exCfg exBlind)
+      [.reserve { id := 1, chips := 500, seat := 0 } [], .reserve { id := 2, chips := 300, seat := 2 } [],
+       .reserve { id := 3, chips := 200, seat := 3 } [], .join 2, .join 3, .start, .setup 0 [(2, 0), (3, 1)],
+       .fire (some 3) true, .pause]
+    t.gidx.filterMap (entryId t.players) = [2, 3] ∧ (batchRemove t [1]).2 = .ok ∧
+    (batchRemove t [1]).1.gidx.filterMap (entryId (batchRemove t [1]).1.players) = [2, 3] ∧
+    t.gidx ≠ (batchRemove t [1]).1.gidx := by decide
 
 /-- **C02 — stable under everything that happens to other players while the hand runs**: a reservation, a batch
 join, a re-buy, an add-on and a join leave the hand's list alone and keep every existing player at his index. -/
